@@ -575,6 +575,7 @@ def h_work(prop, case, facts, kind="dfa", n=6, an=EITHER, timeout=1200, stubs=()
     body = _body(case, kind, "t::work::<%s, _, %d, %d, %s>(&a)" % (case.mod, n, an, "true" if kind == "dfa" else "false"))
     schema = [("hay", ("bytes", n)), ("s", "usize"), ("e", "usize")] + ([("anchored", "bool")] if an == EITHER else [])
     meta = dict(template="work", kind=kind, N=n, anchored_mode=AMODE[an], symbolic=["haystack bytes", "span", "anchored flag"],
+                fixed_inputs={} if an == EITHER else {"anchored": int(an == AN)},
                 hook="counters in the search loops' next_state call sites and the NFAs' failure loops")
     f = facts[case.name]
     unwind = base_unwind(case, facts, n)
@@ -1172,10 +1173,10 @@ def schedule(prop, tier, seed):
             hs = []
             for c in cases:
                 # measured: 8-13 min and up to 20 GB per harness at N=2 even with the no-growth stub
-                if "split" not in c.name and (not quick or c.name in ("c12std_two", "c12lf_empty")):
-                    hs.append(h_replace_bytes(prop, c, facts, "dfa", n=2 if quick else 3, timeout=2400 if quick else 5400))
-                if ("split" in c.name or "empty" in c.name) and (not quick or c.name in ("c12lf_empty", "c12std_split")):
-                    hs.append(h_replace_str(prop, c, facts, "dfa", n=2 if quick else 3, timeout=2400 if quick else 5400))
+                if "split" not in c.name and (not quick or c.name in ("c12lf_empty",)):
+                    hs.append(h_replace_bytes(prop, c, facts, "dfa", n=int(__import__("os").environ.get("VERIF_C12N", "2")) if quick else 3, timeout=2400 if quick else 5400))
+                if ("split" in c.name or "empty" in c.name) and (not quick or c.name in ("c12lf_empty",)):
+                    hs.append(h_replace_str(prop, c, facts, "dfa", n=int(__import__("os").environ.get("VERIF_C12N", "2")) if quick else 3, timeout=2400 if quick else 5400))
             return hs
         return cases, mk
     if prop == "C17":
